@@ -3,3 +3,12 @@
 
 class Baz:
     pass
+
+
+import typing as _t
+
+_T = _t.TypeVar("_T")
+
+
+class Box(_t.Generic[_T]):
+    """a user-defined generic class (reaches the renderer from a kept source annotation: `Box[None]`, `Box[Baz]`)"""
